@@ -25,13 +25,14 @@ static std::string tmp_path(const char * tag) { return g_dir + "/" + tag + "." +
 
 // write a sequence through the File API; ownership of clones passes to the library. returns error text or ""
 static std::string write_file(const std::string & path, const sg::Seq & s, const sg::Config & c, File * keep = nullptr,
-                              void (*prep)(File &, void *) = nullptr, void * arg = nullptr, int pause_ms = 0) {
+                              void (*prep)(File &, void *) = nullptr, void * arg = nullptr, int pause_ms = 0, bool level_after_open = false) {
     File local; File & f = keep ? *keep : local;
-    f.compressionLevel = c.level; f.writeRestorePoints = c.trailer; f.setDefaultLogContainerSize(c.C);
+    f.compressionLevel = level_after_open ? (c.level ? 0 : 6) : c.level; f.writeRestorePoints = c.trailer; f.setDefaultLogContainerSize(c.C);
     if (c.tiny_limits) f.verifSetLimits(c.Q, c.B);
     if (prep) prep(f, arg);
     f.open(path.c_str(), std::ios_base::out);
     if (!f.is_open()) return "open(out) failed";
+    if (level_after_open) { struct timespec ts = {0, 3000000}; nanosleep(&ts, nullptr); f.compressionLevel = c.level; }    // the level is configured after open(), before anything is written
     for (size_t i = 0; i < s.objs.size(); i++) {
         f.write(s.cis[i]->clone(s.objs[i]));
         if (pause_ms && i + 1 == s.objs.size() / 2) { struct timespec ts = {0, pause_ms * 1000000L / 2}; nanosleep(&ts, nullptr); }
@@ -53,6 +54,12 @@ static void c01_one(uint64_t seed, long idx, const std::string & path, C01Acc & 
     {
         sg::Config c = sg::make_config(seed, idx);
         sg::Seq s; sg::make_sequence(s, seed, idx, c.C < 16 ? 12 : 40, true, std::min<size_t>(3u << 20, (size_t)c.C * 2000));   // the stream stages scan their container list per chunk: keep #containers tractable
+        if (idx % 97 == 5) {      // one object whose payload of a single repeated byte is longer than a large container (deflate's best case, > 1000:1)
+            static const uint32_t bigc[] = {1u << 20, 2u << 20, 4u << 20}; c.C = bigc[(idx / 97) % 3]; c.level = 4 + (int)((idx / 97) % 6); c.tiny_limits = false;
+            const vr::ClassInfo * ci = ol::find_class((idx / 97) % 2 ? "AppText" : "EnvironmentVariable"); ObjectHeaderBase * o = ci->make(); Obj ob(ci, o);
+            const vr::Field & pl = ob.get((idx / 97) % 2 ? "text" : "data"); pl.resize((size_t)c.C * 2 + c.C / 3); memset(pl.wdata(), (idx / 97) % 3 == 0 ? 0 : (idx / 97) % 3 == 1 ? 0xff : 'z', pl.nbytes());
+            ob.get("objectTimeStamp").set_u64(0x1000000ULL + s.objs.size()); s.objs.push_back(o); s.cis.push_back(ci);
+        }
         std::string ctx = " [" + c.str() + "] case=" + std::to_string(idx) + " " + sg::describe_seq(s, 4);
         std::string e = write_file(path, s, c);
         if (!e.empty()) { hc::viol("write-session:" + e, ctx); return; }
@@ -97,7 +104,7 @@ static int run_c01(uint64_t seed, long from, long to) {
     C01Acc acc, acc2; long pairs = 0;
     for (long idx = from; idx < to; idx++) {
         hc::begin_case(std::to_string(idx));
-        wd::arm(240, "c01-session"); wd::note(("c01 case " + std::to_string(idx)).c_str());
+        wd::arm(120, "c01-session"); wd::note(("c01 case " + std::to_string(idx)).c_str());
         // one case in eight runs together with its successor: two independent Files on two application threads
         if (idx % 8 == 0 && idx + 1 < to) { std::thread t([&] { c01_one(seed, idx + 1, path + ".b", acc2); }); c01_one(seed, idx, path, acc); t.join(); pairs++; idx++; hc::begin_case(std::to_string(idx)); }
         else c01_one(seed, idx, path, acc);
@@ -148,7 +155,7 @@ static bool gen_one(uint64_t seed, long idx, const std::string & dir, long K) {
         uint64_t w_usize, w_count, w_fsize, w_rpo; uint64_t w_cur_usize; uint32_t w_cur_count;
         {
             File f;
-            std::string e = write_file(base + ".blf", s, c, &f, set_header, &h);
+            std::string e = write_file(base + ".blf", s, c, &f, set_header, &h, 0, idx % 5 == 2);
             if (!e.empty()) { hc::viol("write-session:" + e, ctx); return false; }
             w_usize = f.fileStatistics.uncompressedFileSize; w_count = f.fileStatistics.objectCount; w_fsize = f.fileStatistics.fileSize; w_rpo = f.fileStatistics.restorePointsOffset;
             w_cur_usize = f.currentUncompressedFileSize; w_cur_count = f.currentObjectCount;
